@@ -173,6 +173,5 @@ func SizeStress(thorough bool) []string {
 		"JSIGHT 0.3\nTYPE @a regex\n/" + strings.Repeat("(a|b)*", 300) + "/\n",
 		strings.Repeat("#", long),
 		strings.Repeat("\n", long) + "JSIGHT 0.3",
-		"JSIGHT 0.3\nTYPE @a\n" + strings.Repeat("[", 5200) + strings.Repeat("]", 5200),
 	}
 }
